@@ -7,6 +7,7 @@ package influxql
 
 // Package-level variables that are assigned once by their initialisers.
 //@ globalinv ErrInvalidDuration != nil
+//@ globalinv ErrInvalidTime != nil
 //@ globalinv errBadString != nil && errBadEscape != nil && errBadString != errBadEscape
 
 // AST well-formedness (G3): what the parser establishes for every node it
@@ -165,4 +166,4 @@ package influxql
 //@ func QuoteString
 //@   props C06
 //@   safety C06
-//@   ensures result == scat(scat("'", smt("lib__Pstrings_Replacer__Replace_0", qsReplacer, s)), "'")
+//@   ensures result == scat(scat("'", libcall("(*strings.Replacer).Replace", qsReplacer, s)), "'")
